@@ -68,12 +68,15 @@ type tally struct {
 	sample                  any
 	maxCalls, maxBatch      int
 	maxRef                  int
+	softCases               []string
 }
 
 type driver struct {
 	r    *ev.Run
 	sub  *ev.Sub
 	name string
+
+	softNoted int
 }
 
 // drive runs gen for every spec in parallel and merges the tallies.
@@ -103,6 +106,9 @@ func (d *driver) drive(specs []ARSpec, gen func(fx *fixture, emit func(Case))) {
 			}
 			if v.softNoRet {
 				t.soft++
+				if len(t.softCases) < 2 {
+					t.softCases = append(t.softCases, fmt.Sprintf("%s shape=%v corrupt=%+v mode=%s", v.outcome, c.AR.Dirs, *c.Corrupt, modeNames[c.Mode]))
+				}
 			}
 			t.outcomes[v.outcome]++
 			if v.calls > t.maxCalls {
@@ -154,6 +160,12 @@ func (d *driver) drive(specs []ARSpec, gen func(fx *fixture, emit func(Case))) {
 		}
 		for _, v := range t.viols {
 			d.r.Violate(v)
+		}
+		for _, sc := range t.softCases {
+			if d.softNoted < 6 {
+				d.softNoted++
+				d.r.Note(d.name + ": decorator stricter than proto.Unmarshal on an altered Tree served without validation: " + sc)
+			}
 		}
 		// two samples per sub-check: a small and a large fixture
 		if pick[i] && sampled < 2 {
@@ -292,6 +304,12 @@ func main() {
 			for so := 0; so <= 2; so++ {
 				for se := 0; se <= 2; se++ {
 					for _, dc := range combos {
+						// quick tier: with output directories only 4 of the 9
+						// stdout/stderr combinations (absent+absent, digest+digest,
+						// inline+digest, digest+inline)
+						if !thorough && len(dc) > 0 && !((so == 0 && se == 0) || (so == 1 && se == 1) || (so == 2 && se == 1) || (so == 1 && se == 2)) {
+							continue
+						}
 						for _, col := range []bool{false, true} {
 							specs = append(specs, ARSpec{Files: files, Stdout: so, Stderr: se, Dirs: dc, Collide: col})
 						}
@@ -299,7 +317,7 @@ func main() {
 				}
 			}
 		}
-		sub := r.NewSub("missing-subsets", "venum", fmt.Sprintf("{0,1,2 output files} x {stdout absent/digest/inline} x {stderr likewise} x {no dir, 42 single dirs (21 Tree shapes x root digest y/n), ordered pairs over %d shapes x root y/n} x {distinct, colliding blob digests} = %d ActionResults; x every subset of the referenced objects missing (2^n for n<=8, else none+singletons+all) x batch sizes %s x (when a Tree is in the subset) Get refuses / still serves it; validating CAS buffer", len(pairShapesMain), len(specs), ev.Pick(r, "{1,2,3,64} plus 1000 when nothing / one object / everything is missing", "{1,2,3,64,1000}")))
+		sub := r.NewSub("missing-subsets", "venum", fmt.Sprintf("{0,1,2 output files} x {stdout absent/digest/inline} x {stderr likewise}"+ev.Pick(r, " (with output directories: only absent+absent, digest+digest, inline+digest, digest+inline)", "")+" x {no dir, 42 single dirs (21 Tree shapes x root digest y/n), ordered pairs over %d shapes x root y/n} x {distinct, colliding blob digests} = %d ActionResults; x every subset of the referenced objects missing (2^n for n<=8, else none+singletons+all) x batch sizes %s x (when a Tree is in the subset) Get refuses / still serves it; validating CAS buffer", len(pairShapesMain), len(specs), ev.Pick(r, "{1,2,3,64} plus 1000 when nothing / one object / everything is missing", "{1,2,3,64,1000}")))
 		done := sub.Timer()
 		d := &driver{r: r, sub: sub, name: "missing-subsets"}
 		d.drive(specs, func(fx *fixture, emit func(Case)) {
@@ -325,7 +343,7 @@ func main() {
 		})
 		sub.Exhaustive = true
 		if !thorough {
-			sub.BoundCompleted = fmt.Sprintf("pairs of output directories over Tree shapes %v only", pairShapesMain)
+			sub.BoundCompleted = fmt.Sprintf("quick: pairs of output directories over Tree shapes %v only; 4 of 9 stdout/stderr combinations when directories are present; batch 1000 only with <=1 or all objects missing", pairShapesMain)
 		}
 		done()
 	}
